@@ -103,7 +103,13 @@ func drawProbePlan(rt *rapid.T) *probePlan {
 		p.Proto = "udp"
 	}
 	p.Policy = rapid.SampledFrom([]string{polAvailability, polLatency, polMinMax}).Draw(rt, "policy")
+	// group size: the quantifier names 1..5 clients; the statement itself is not limited, so one case
+	// in eight is a large group (13..24: beyond what small-slice special cases of sorts etc. cover)
+	large := rapid.IntRange(0, 7).Draw(rt, "sizeClass") == 0
 	n := rapid.IntRange(1, 5).Draw(rt, "n")
+	if large {
+		n = rapid.IntRange(13, 24).Draw(rt, "nLarge")
+	}
 	ids := make([]int, n)
 	for i := range ids {
 		ids[i] = i
@@ -141,6 +147,9 @@ func drawProbePlan(rt *rapid.T) *probePlan {
 	default:
 		R = rapid.IntRange(65, 120).Draw(rt, "rounds")
 	}
+	if large && R > 70 {
+		R = 65 + R%6 // large groups: keep the cost bounded, still beyond both retentions
+	}
 
 	// a small palette of outcomes per case makes equal figures (ties) likely
 	K := rapid.IntRange(2, 6).Draw(rt, "palette")
@@ -163,11 +172,52 @@ func drawProbePlan(rt *rapid.T) *probePlan {
 		pref2[i] = rapid.IntRange(0, K-1).Draw(rt, "pref2")
 		change[i] = rapid.IntRange(0, R).Draw(rt, "change")
 	}
+	// large groups: a "team" of 2..4 pairwise non-adjacent members with identical histories (mostly a
+	// good outcome, so they usually share the best figure) and one member that always does badly
+	teamOf := make([]int, n) // position -> leader position, -1 if not a follower
+	for i := range teamOf {
+		teamOf[i] = -1
+	}
+	loser := -1
+	var good outcome
+	leader := -1
+	if large {
+		size := rapid.IntRange(2, 4).Draw(rt, "team")
+		pos := rapid.IntRange(0, 3).Draw(rt, "teamFirst")
+		leader = pos
+		for k := 1; k < size; k++ {
+			pos += rapid.IntRange(2, 4).Draw(rt, "teamGap")
+			if pos >= n {
+				break
+			}
+			teamOf[pos] = leader
+		}
+		loser = rapid.IntRange(0, n-1).Draw(rt, "loser")
+		if loser == leader || teamOf[loser] >= 0 {
+			loser = -1
+		}
+		good = outcome{Kind: kOK, Lat: rapid.SampledFrom([]int64{0, int64(time.Microsecond), int64(T / 4)}).Draw(rt, "goodLat"), How: rapid.IntRange(0, 2).Draw(rt, "goodHow")}
+		if p.Proto == "udp" {
+			good = outcome{Kind: kFail, Lat: good.Lat}
+		}
+	}
 	p.Hist = make([][]outcome, R)
 	for r := 0; r < R; r++ {
 		row := make([]outcome, n)
 		for i := 0; i < n; i++ {
+			if teamOf[i] >= 0 {
+				row[i] = row[teamOf[i]]
+				continue
+			}
+			if i == loser {
+				row[i] = outcome{Kind: kFail, Lat: 0, How: r % 5}
+				continue
+			}
 			v := rapid.IntRange(0, 7+K).Draw(rt, "o")
+			if i == leader && v < 6 {
+				row[i] = good
+				continue
+			}
 			switch {
 			case v < 6:
 				if r < change[i] {
@@ -225,6 +275,8 @@ func drawProbePlan(rt *rapid.T) *probePlan {
 type probeStats struct {
 	samples, during, after int64
 	ties, tieWinnerNotFirst int
+	bigTie                  int // rounds (groups > 12) whose best figure is shared by non-adjacent members while some member is worse
+	bigTieWinnerNotFirst    int
 	switches               int
 	retSensitive           bool
 	winners                string
@@ -252,6 +304,25 @@ func runProbePlan(t *testing.T, p *probePlan) (viol string, st probeStats) {
 			st.ties++
 			if choice[r] != 0 {
 				st.tieWinnerNotFirst++
+			}
+		}
+		if n > 12 && tie {
+			sc := scores(p.Policy, p.Hist, r, retain, int64(T))
+			first, lastBest, worse := choice[r], choice[r], false
+			for pos, v := range sc {
+				if v == sc[first] {
+					lastBest = pos
+				} else {
+					worse = true
+				}
+			}
+			// the best positions are first..lastBest (not necessarily all of them); non-adjacent if some
+			// pair is >= 2 apart, which holds iff the extremes are
+			if worse && lastBest-first >= 2 {
+				st.bigTie++
+				if first != 0 {
+					st.bigTieWinnerNotFirst++
+				}
 			}
 		}
 		if r > 1 && choice[r] != choice[r-1] {
@@ -537,12 +608,13 @@ func (p *probePlan) brief() string {
 
 var recProbe = ev.New("C19", "probe-policies",
 	"rapid plan executed in a testing/synctest bubble against a group built by ClientGroupConfig.AddClientGroup: policy in {availability, latency, min-max-latency}; "+
-		"1..5 scripted fake clients (TCP netio.StreamClient answering the HTTP probe over an in-memory conn; 10% UDP fakes whose probes can only fail/hang) in a drawn configuration order plus 0..2 non-member decoys; "+
+		"1..5 (7 in 8 cases) or 13..24 (1 in 8; with a team of 2..4 pairwise non-adjacent members sharing one mostly-good history and one always-failing member) scripted fake clients (TCP netio.StreamClient answering the HTTP probe over an in-memory conn; 10% UDP fakes whose probes can only fail/hang) in a drawn configuration order plus 0..2 non-member decoys; "+
 		"timeout in {default 5s,250ms,1s,5s,7s}, concurrency in {default,1,2,n-1,n,n+1,100}, interval > round bound (incl. default 30s); 1..120 rounds (buckets 1-8/9-32/33-64/65-120); "+
 		"per round and client an outcome {ok after lat, fail after lat (dial error/200/502/garbage/EOF), hang (dial/silence/partial)} drawn from a 2..6 entry palette with per-client preferred outcome, change point and mirroring (us granularity latencies in [0,timeout)); "+
 		"selection sampled via NewStreamDialer/DialStream/NewSession at drawn instants inside every round (0, 1ns, completion instants +-1ns, timeout-1ns, timeout) and after it, compared with a reference policy over the retained window. "+
 		"Non-trivial: >=3 clients, >=1 round whose best figure is tied, history longer than the retention (64/32); distinct key = proto|policy|n|winner sequence").
-	Require("policy/availability", "policy/latency", "policy/min-max-latency", "proto/udp", "tie", "tie-winner-not-first", "history>retention", "retention-sensitive", "switch", "sample-during", "sample-after", "hang", "fail")
+	Require("policy/availability", "policy/latency", "policy/min-max-latency", "proto/udp", "tie", "tie-winner-not-first", "history>retention", "retention-sensitive", "switch", "sample-during", "sample-after", "hang", "fail",
+		"group>12", "group>12-with-tie", "group>12-with-tie/availability", "group>12-with-tie/latency", "group>12-with-tie/min-max-latency", "group>12-tie-winner-not-first")
 
 func probeLabels(p *probePlan, st probeStats) (key string, nt bool, labels []string) {
 	n, R := p.n(), len(p.Hist)
@@ -555,6 +627,15 @@ func probeLabels(p *probePlan, st probeStats) (key string, nt bool, labels []str
 	}
 	if st.switches > 0 {
 		labels = append(labels, "switch")
+	}
+	if n > 12 {
+		labels = append(labels, "group>12")
+		if st.bigTie > 0 {
+			labels = append(labels, "group>12-with-tie", "group>12-with-tie/"+p.Policy)
+		}
+		if st.bigTieWinnerNotFirst > 0 {
+			labels = append(labels, "group>12-tie-winner-not-first")
+		}
 	}
 	long := R > retention(p.Policy)
 	if long {
